@@ -29,6 +29,11 @@ pub fn stored_path(cache: &Path) -> PathBuf {
 pub fn tree(
     tag: u8, num: u64, this_update: i64,
     obj_fault: Option<Fault>, point_fault: Option<PointFault>,
+) -> TreeSpec { tree_at(tag, num, 0, this_update, obj_fault, point_fault) }
+
+pub fn tree_at(
+    tag: u8, num: u64, base: u8, this_update: i64,
+    obj_fault: Option<Fault>, point_fault: Option<PointFault>,
 ) -> TreeSpec {
     let mut ta = CaSpec::new("ta0", 0, "ta0.example", "repo");
     ta.v4 = vec![(Ipv4Addr::new(10, 0, 0, 0), 8)];
@@ -38,6 +43,7 @@ pub fn tree(
     ca.v4 = vec![(Ipv4Addr::new(10, 1, 0, 0), 16)];
     ca.asns = vec![(64500, 64505)];
     ca.mft_number = num;
+    ca.mft_number_base = base;
     ca.mft_this_update = this_update;
     ca.point_fault = point_fault;
     let mut marker = ObjSpec::roa("marker", 64500, &format!("10.1.{tag}.0"), 24, 24);
@@ -75,7 +81,7 @@ fn c05_versions() -> Vec<(u64, i64, u8)> {
     res
 }
 
-fn c05_case(gen: &Gen, dir: PathBuf, seq: &[usize]) -> Result<String, (String, String)> {
+fn c05_case(gen: &Gen, dir: PathBuf, seq: &[usize], base: u8) -> Result<String, (String, String)> {
     let now = Time::now();
     let versions = c05_versions();
     let case = Case::new(dir);
@@ -85,7 +91,7 @@ fn c05_case(gen: &Gen, dir: PathBuf, seq: &[usize]) -> Result<String, (String, S
     let mut obs = Vec::new();
     for (step, vi) in seq.iter().enumerate() {
         let v = versions[*vi];
-        let image = Builder::at(gen, Stale::Reject, now).build(&tree(v.2, v.0, v.1, None, None));
+        let image = Builder::at(gen, Stale::Reject, now).build(&tree_at(v.2, v.0, base, v.1, None, None));
         if step == 0 { case.write_tals(&image); }
         case.publish(&image);
         let out = etree::run(&config, false, &LocalExceptions::empty())
@@ -97,7 +103,7 @@ fn c05_case(gen: &Gen, dir: PathBuf, seq: &[usize]) -> Result<String, (String, S
         };
         let want = stored.unwrap();
         let got = marker_of(&out.data);
-        let hist: Vec<String> = seq[..=step].iter().map(|i| format!("(#{}, t{})", versions[*i].0, (versions[*i].1 + 7200) / 600)).collect();
+        let hist: Vec<String> = seq[..=step].iter().map(|i| format!("(#{}{}, t{})", ["", "2^64-2+", "2^136+"][base as usize], versions[*i].0, (versions[*i].1 + 7200) / 600)).collect();
         if got != [want.2].into_iter().collect() {
             let class = if got.iter().any(|t| {
                 let num = (*t / 16) as u64; let ti = (*t % 16) as i64;
@@ -111,7 +117,7 @@ fn c05_case(gen: &Gen, dir: PathBuf, seq: &[usize]) -> Result<String, (String, S
         // stored manifest number never decreases and matches
         let sp = StoredPoint::load_quietly(stored_path(&config.cache_dir));
         let num = sp.as_ref().and_then(|p| p.manifest()).map(|m| m.manifest_number);
-        if num != Some(rpki::repository::x509::Serial::from(want.0)) {
+        if num != Some(crate::rpkigen::big_number(want.0, base)) {
             return Err(("stored-number".into(), format!(
                 "history {hist:?}: stored manifest number {num:?}, expected {}", want.0
             )))
@@ -144,17 +150,22 @@ pub fn run_c05(ctx: &Ctx) -> Report {
     let all: Vec<Vec<usize>> = seqs(9, max_len).into_iter().filter(|s| s.len() == max_len).collect();
     rep.rule = "versions = all (manifestNumber, thisUpdate) in {1,2,3} x \
         {t1<t2<t3}, each validly signed and complete with a VRP encoding \
-        the version; every sequence of versions served to consecutive runs \
+        the version - and the same with all numbers moved up by 2^64-2 \
+        (straddling the 64-bit boundary) and by 2^136 (18-octet numbers); every sequence of versions served to consecutive runs \
         of the real engine (identical replays included); after every run \
         the CA's payload and the stored manifest number must be those of \
         the reference store (replace iff number strictly greater and \
         thisUpdate strictly later); non-trivial = sequences in which at \
         least one later version must be refused".into();
-    rep.bound = format!("all 9^{max_len} sequences, every prefix checked");
+    rep.bound = format!("all 9^{max_len} sequences x 3 number ranges, every prefix checked");
     let threads = std::env::var("ETREE_THREADS").ok().and_then(|s| s.parse().ok()).unwrap_or(8);
+    let n_seq = all.len();
+    // every sequence with the numbers as they are, moved up so that they
+    // straddle 2^64, and moved up to 18 octets
+    let all: Vec<Vec<usize>> = (0..3).flat_map(|_| all.iter().cloned()).collect();
     let res = util::par_map(all.len() as u64, threads, |i| {
         let seq = &all[i as usize];
-        util::catch(|| c05_case(&gen, ctx.scratch.join(format!("c{i}")), seq))
+        util::catch(|| c05_case(&gen, ctx.scratch.join(format!("c{i}")), seq, (i as usize / n_seq) as u8))
             .unwrap_or_else(|p| Err(("panic".into(), p)))
     });
     let versions = c05_versions();
@@ -173,7 +184,7 @@ pub fn run_c05(ctx: &Ctx) -> Report {
             Ok(o) => rep.outcome(o),
             Err((class, msg)) => {
                 rep.outcome(format!("VIOLATION:{class}"));
-                rep.violation(format!("rollback:{class}"), msg, json!({"seq": all[i]}));
+                rep.violation(format!("rollback:{class}"), msg, json!({"seq": all[i], "base": i / n_seq}));
             }
         }
     }
@@ -187,7 +198,7 @@ pub fn replay_c05(ctx: &Ctx, v: &Value) -> Report {
     let gen = Gen::load();
     let mut rep = Report::new("model_checking");
     let seq: Vec<usize> = v["seq"].as_array().unwrap().iter().map(|x| x.as_u64().unwrap() as usize).collect();
-    let r = c05_case(&gen, ctx.scratch.join("replay"), &seq);
+    let r = c05_case(&gen, ctx.scratch.join("replay"), &seq, v["base"].as_u64().unwrap_or(0) as u8);
     println!("{seq:?}: {r:?}");
     if let Err((class, msg)) = r { rep.violation(format!("rollback:{class}"), msg, v.clone()); }
     rep.evaluations = 1; rep.states = 1; rep.transitions = seq.len() as u64; rep.traces = 1;
